@@ -1,6 +1,6 @@
 SPECIFICATION Spec
 CONSTANTS
-  Part = "gzip"
+  Part = "misc"
   Size = "quick"
   Defects = {"gzip406"}
 INVARIANT TypeOK
